@@ -89,7 +89,7 @@ class Mutator(ast.NodeTransformer):
 
     def visit_Compare(self, node):
         self.generic_visit(node)
-        if self.kind == "cmp" and self._hit(node):
+        if self.kind == "cmp" and len(node.ops) == 1 and type(node.ops[0]) in CMP and self._hit(node):
             old = type(node.ops[0]).__name__
             node.ops = [CMP[type(node.ops[0])]()]
             self.done = f"{old} -> {type(node.ops[0]).__name__}"
@@ -97,21 +97,21 @@ class Mutator(ast.NodeTransformer):
 
     def visit_BinOp(self, node):
         self.generic_visit(node)
-        if self.kind == "bin" and self._hit(node):
+        if self.kind == "bin" and type(node.op) in BIN and self._hit(node):
             old = type(node.op).__name__
             node.op = BIN[type(node.op)]()
             self.done = f"{old} -> {type(node.op).__name__}"
         return node
 
     def visit_Constant(self, node):
-        if self.kind == "const" and self._hit(node):
+        if self.kind == "const" and isinstance(node.value, int) and not isinstance(node.value, bool) and self._hit(node):
             self.done = f"{node.value} -> {node.value + 1}"
             return ast.copy_location(ast.Constant(value=node.value + 1), node)
         return node
 
     def visit_Call(self, node):
         self.generic_visit(node)
-        if self.kind == "call" and self._hit(node):
+        if self.kind == "call" and isinstance(node.func, ast.Attribute) and node.func.attr in CALLS and self._hit(node):
             old = node.func.attr
             node.func.attr = CALLS[old]
             self.done = f"z3.{old} -> z3.{node.func.attr}"
